@@ -18,6 +18,8 @@ func generate(prop string, seed int64, n int) []Group {
 			gr = genContainer(g, prop, i)
 		case "C17":
 			gr = genC17(g, i)
+		case "C06":
+			gr = genC06(g, i)
 		default:
 			die("no generator for %s", prop)
 		}
@@ -500,6 +502,82 @@ func genC17(g *Gen, i int) Group {
 	return Group{Cases: []Case{{Name: fmt.Sprintf("%d", i), Ops: ops}}}
 }
 
+// ---------------------------------------------------------------- C06
+
+// genC06: one registration set, built several times in the same order (every Build sees another
+// map iteration order) and in permuted registration orders that keep the order inside each group.
+func genC06(g *Gen, i int) Group {
+	cfg := defaultCfg()
+	cfg.NRegs = 4 + g.n(7)
+	cfg.PGroup = 0.35
+	cfg.PAs = 0.2
+	cfg.LifeWeights = [3]int{6, 2, 2}
+	cfg.PCycle, cfg.PConflict, cfg.PMissing = 0.1, 0.1, 0.1
+	regs := g.RegSet(cfg)
+	// the same history for every variant
+	var tail []Op
+	tail = append(tail, Op{Kind: "build"}, Op{Kind: "createscope", P: 0, Parent: 0})
+	for _, r := range regs {
+		for _, id := range regOutputs(r) {
+			if id.ty == tVoid {
+				continue
+			}
+			for _, h := range []int{0, 1} {
+				if id.group != 0 {
+					tail = append(tail, Op{Kind: "resolvegroup", P: 0, H: h, Ty: id.ty, Group: id.group})
+				} else {
+					tail = append(tail, Op{Kind: "resolve", P: 0, H: h, Ty: id.ty, Name: id.name})
+				}
+			}
+		}
+	}
+	tail = append(tail, Op{Kind: "closeprovider", P: 0})
+	groupOf := func(r *Reg) (ident, bool) {
+		ids := regOutputs(r)
+		if len(ids) > 0 && ids[0].group != 0 {
+			return ident{ids[0].ty, 0, ids[0].group}, true
+		}
+		return ident{}, false
+	}
+	permute := func() []*Reg {
+		perm := g.rnd.Perm(len(regs))
+		out := make([]*Reg, len(regs))
+		for k, j := range perm {
+			out[k] = regs[j]
+		}
+		// restore the original relative order inside each group
+		pos := map[ident][]int{}
+		for k, r := range out {
+			if gk, ok := groupOf(r); ok {
+				pos[gk] = append(pos[gk], k)
+			}
+		}
+		for gk, ps := range pos {
+			var members []*Reg
+			for _, r := range regs {
+				if k2, ok := groupOf(r); ok && k2 == gk {
+					members = append(members, r)
+				}
+			}
+			for k, p := range ps {
+				out[p] = members[k]
+			}
+		}
+		return out
+	}
+	var cases []Case
+	for v := 0; v < 6; v++ {
+		order := regs
+		if v >= 3 {
+			order = permute()
+		}
+		ops := append(addOps(order), tail...)
+		cp := make([]Op, len(ops))
+		copy(cp, ops)
+		cases = append(cases, Case{Name: fmt.Sprintf("%d/variant%d", i, v), Ops: cp})
+	}
+	return Group{Kind: "variants", Cases: cases}
+}
+
 func cmdWeb(args []string)   { die("web: not built yet") }
-func cmdGraph(args []string) { die("graph: not built yet") }
 func cmdConc(args []string)  { die("conc: not built yet") }
